@@ -1,12 +1,359 @@
 package main
 
 import (
+	"crypto/sha256"
+	"encoding/hex"
+	"encoding/json"
+	"flag"
 	"fmt"
-	"golang.org/x/tools/go/packages"
-	_ "golang.org/x/tools/go/ssa"
-	_ "golang.org/x/tools/go/ssa/ssautil"
-	_ "golang.org/x/tools/go/callgraph/vta"
-	_ "golang.org/x/tools/go/callgraph/cha"
+	"io"
+	"io/fs"
+	"os"
+	"path/filepath"
+	"runtime/debug"
+	"sort"
+	"strconv"
+	"strings"
+	"syscall"
+	"time"
 )
 
-func main() { fmt.Println(packages.LoadAllSyntax) }
+type ruleFn func(w *World, o *Out)
+
+var registry = map[string]ruleFn{}
+
+func register(id string, f ruleFn) { registry[id] = f }
+
+func verifDir() string {
+	if d := os.Getenv("VERIF_DIR"); d != "" {
+		return d
+	}
+	exe, err := os.Executable()
+	if err == nil {
+		d := filepath.Dir(filepath.Dir(exe))
+		if _, err := os.Stat(filepath.Join(d, "properties.jsonl")); err == nil {
+			return d
+		}
+	}
+	return "/verif"
+}
+
+// treeHash covers every Go source, go.mod and go.sum under dir (minus .git) and the
+// checker binary itself.
+func treeHash(dir string) (string, int, error) {
+	h := sha256.New()
+	var files []string
+	err := filepath.WalkDir(dir, func(p string, d fs.DirEntry, err error) error {
+		if err != nil {
+			return err
+		}
+		if d.IsDir() {
+			if d.Name() == ".git" || d.Name() == "node_modules" {
+				return filepath.SkipDir
+			}
+			return nil
+		}
+		if strings.HasSuffix(p, ".go") || d.Name() == "go.mod" || d.Name() == "go.sum" {
+			files = append(files, p)
+		}
+		return nil
+	})
+	if err != nil {
+		return "", 0, err
+	}
+	sort.Strings(files)
+	for _, f := range files {
+		b, err := os.ReadFile(f)
+		if err != nil {
+			return "", 0, err
+		}
+		fmt.Fprintf(h, "%s %d\n", strings.TrimPrefix(f, dir), len(b))
+		h.Write(b)
+	}
+	if exe, err := os.Executable(); err == nil {
+		if f, err := os.Open(exe); err == nil {
+			io.Copy(h, f)
+			f.Close()
+		}
+	}
+	return hex.EncodeToString(h.Sum(nil))[:32], len(files), nil
+}
+
+type cacheFile struct {
+	TreeHash  string             `json:"tree_hash"`
+	Packages  int                `json:"packages"`
+	ProdFuncs int                `json:"prod_funcs"`
+	Results   map[string]*Result `json:"results"`
+	ComputeS  float64            `json:"compute_s"`
+}
+
+func runProperty(w *World, id string) (res *Result) {
+	o := newOut(w, id)
+	defer func() {
+		if r := recover(); r != nil {
+			o.R.Panic = fmt.Sprintf("%v\n%s", r, debug.Stack())
+			res = o.R
+		}
+	}()
+	f := registry[id]
+	if f == nil {
+		o.R.Panic = "no rules registered for " + id
+		return o.R
+	}
+	f(w, o)
+	sort.SliceStable(o.R.Obligations, func(i, j int) bool { return o.R.Obligations[i].Key < o.R.Obligations[j].Key })
+	sort.Strings(o.R.Analysed)
+	return o.R
+}
+
+func computeAll(dir string, only string, overlay map[string][]byte) (*cacheFile, error) {
+	t0 := time.Now()
+	w, err := LoadWorld(dir, overlay)
+	if err != nil {
+		return nil, err
+	}
+	cf := &cacheFile{Packages: w.NumPkgs, ProdFuncs: len(w.ProdFuncs), Results: map[string]*Result{}}
+	var ids []string
+	for id := range registry {
+		if only == "" || only == id {
+			ids = append(ids, id)
+		}
+	}
+	sort.Strings(ids)
+	for _, id := range ids {
+		cf.Results[id] = runProperty(w, id)
+	}
+	cf.ComputeS = time.Since(t0).Seconds()
+	return cf, nil
+}
+
+func main() {
+	prop := flag.String("property", "", "property id (C01..C19) or 'all'")
+	tier := flag.String("tier", "quick", "quick|thorough")
+	dir := flag.String("dir", "/repo", "repository to analyse")
+	explain := flag.String("explain", "", "print a replay file (violated obligations) in readable form")
+	nocache := flag.Bool("nocache", false, "ignore the result cache")
+	dump := flag.Bool("dump", false, "print every obligation")
+	mutant := flag.String("mutant", "", "internal: apply the named overlay mutant and print the obligations that fail")
+	selftest := flag.Bool("selftest", false, "run the overlay-mutant self test for the property")
+	probeSpec := flag.String("probe", "", "debug: pkg:recv:name[:calleeSubstr] prints calls, facts, returns, mutations")
+	flag.Parse()
+	if *probeSpec == "entries" {
+		w, err := LoadWorld(*dir, nil)
+		if err != nil {
+			fmt.Println(err)
+			return
+		}
+		cnt := map[string]int{}
+		for _, e := range w.Entries() {
+			cnt[e.Class]++
+			fmt.Printf("%-9s %-50s %s\n", e.Class, e.Name, w.FuncKey(e.Fn))
+		}
+		fmt.Println(cnt)
+		t := time.Now()
+		cr := w.ClassReach()
+		for _, c := range []string{"msg", "abci", "genesis", "ante", "gov", "wasm", "hook", "query", "invariant"} {
+			fmt.Println(c, len(cr.Of(c)), time.Since(t))
+		}
+		return
+	}
+	if *probeSpec != "" {
+		probe(*dir, *probeSpec)
+		return
+	}
+
+	if *explain != "" {
+		b, err := os.ReadFile(*explain)
+		if err != nil {
+			fmt.Println(err)
+			os.Exit(2)
+		}
+		var obs []Obligation
+		json.Unmarshal(b, &obs)
+		for _, ob := range obs {
+			fmt.Printf("%s\n  at %s\n  %s\n", ob.Key, ob.Pos, ob.Detail)
+			for _, wl := range ob.Witness {
+				fmt.Printf("    %s\n", wl)
+			}
+		}
+		return
+	}
+	if *mutant != "" {
+		os.Exit(runMutant(*dir, *prop, *mutant))
+	}
+	if *prop == "" {
+		fmt.Println("usage: palomacheck -property Cxx [-tier quick|thorough]")
+		os.Exit(2)
+	}
+	if t := os.Getenv("VERIF_TIER"); t != "" && (t == "quick" || t == "thorough") {
+		// explicit flag wins; env only when flag left at default
+		set := false
+		flag.Visit(func(f *flag.Flag) {
+			if f.Name == "tier" {
+				set = true
+			}
+		})
+		if !set {
+			*tier = t
+		}
+	}
+	seed, _ := strconv.Atoi(os.Getenv("VERIF_SEED"))
+	vdir := verifDir()
+	t0 := time.Now()
+
+	th, nfiles, err := treeHash(*dir)
+	if err != nil || nfiles < 300 {
+		fmt.Printf("palomacheck: cannot hash tree %s (%d files): %v\n", *dir, nfiles, err)
+		os.Exit(2)
+	}
+	useCache := *tier == "quick" && !*nocache
+	cacheDir := filepath.Join(vdir, ".cache")
+	os.MkdirAll(cacheDir, 0o755)
+	var cf *cacheFile
+	hit := false
+	cpath := filepath.Join(cacheDir, th+".json")
+	if useCache {
+		// exclusive lock so that parallel quick commands share one computation
+		lf, lerr := os.OpenFile(filepath.Join(cacheDir, "lock"), os.O_CREATE|os.O_RDWR, 0o644)
+		if lerr == nil {
+			syscall.Flock(int(lf.Fd()), syscall.LOCK_EX)
+			defer lf.Close()
+		}
+		if b, err := os.ReadFile(cpath); err == nil {
+			var c cacheFile
+			if json.Unmarshal(b, &c) == nil && c.TreeHash == th && c.Results != nil {
+				cf = &c
+				hit = true
+			}
+		}
+		if cf == nil {
+			cf, err = computeAll(*dir, "", nil)
+			if err == nil {
+				cf.TreeHash = th
+				b, _ := json.Marshal(cf)
+				// keep the cache small: drop older entries
+				if ents, e := os.ReadDir(cacheDir); e == nil {
+					for _, en := range ents {
+						if strings.HasSuffix(en.Name(), ".json") {
+							os.Remove(filepath.Join(cacheDir, en.Name()))
+						}
+					}
+				}
+				os.WriteFile(cpath, b, 0o644)
+			}
+		}
+		if lf != nil {
+			syscall.Flock(int(lf.Fd()), syscall.LOCK_UN)
+		}
+	} else {
+		only := *prop
+		if only == "all" {
+			only = ""
+		}
+		cf, err = computeAll(*dir, only, nil)
+		if err == nil {
+			cf.TreeHash = th
+		}
+	}
+	if err != nil {
+		fmt.Printf("palomacheck: analysis could not run: %v\n", err)
+		os.Exit(2)
+	}
+
+	known, kerr := loadKnown(filepath.Join(vdir, "known_findings.json"))
+	if kerr != nil {
+		fmt.Printf("palomacheck: known_findings.json unreadable: %v\n", kerr)
+		os.Exit(2)
+	}
+
+	var ids []string
+	if *prop == "all" {
+		for id := range cf.Results {
+			ids = append(ids, id)
+		}
+		sort.Strings(ids)
+	} else {
+		ids = []string{*prop}
+	}
+	exit := 0
+	for _, id := range ids {
+		r := cf.Results[id]
+		if r == nil {
+			fmt.Printf("palomacheck: no result for %s\n", id)
+			os.Exit(2)
+		}
+		extra := map[string]any{}
+		if *tier == "thorough" && *selftest || *tier == "thorough" {
+			st := runSelfTest(*dir, id)
+			extra["selftest_mutants"] = st.Report
+			extra["selftest_mutants_run"] = st.Run
+			extra["selftest_mutants_detected"] = st.Detected
+			extra["selftest_not_applicable"] = st.NotApplicable
+			if st.Missed > 0 {
+				r.Unresolved = append(r.Unresolved, fmt.Sprintf("self-test: %d overlay mutant(s) not detected (the rule is broken): %s", st.Missed, strings.Join(st.MissedNames, ", ")))
+			}
+		}
+		v := judge(r, known)
+		m := evidenceMeta{Tier: *tier, Seed: seed, WallS: time.Since(t0).Seconds(), TreeHash: th, Packages: cf.Packages,
+			ProdFuncs: cf.ProdFuncs, CacheHit: hit, CGMode: "vta(cha) whole program, module-restricted traversal", Extra: extra}
+		if _, err := writeEvidence(vdir, r, v, m); err != nil {
+			fmt.Printf("palomacheck: cannot write evidence: %v\n", err)
+			os.Exit(2)
+		}
+		total, ok := 0, 0
+		for _, ob := range r.Obligations {
+			if ob.Note {
+				continue
+			}
+			total++
+			if ob.OK {
+				ok++
+			}
+			if *dump {
+				st := "ok  "
+				if !ob.OK {
+					st = "FAIL"
+				}
+				if ob.Note {
+					st = "note"
+				}
+				fmt.Printf("  %s %s  [%s] %s\n", st, ob.Key, ob.Pos, ob.Detail)
+			}
+		}
+		fmt.Printf("%s tier=%s packages=%d prod_functions=%d obligations=%d discharged=%d cache_hit=%v wall=%.1fs\n",
+			id, *tier, cf.Packages, cf.ProdFuncs, total, ok, hit, time.Since(t0).Seconds())
+		for _, ob := range v.Known {
+			fmt.Printf("KNOWN-FINDING: property=%s %s at %s: %s\n", id, ob.Key, ob.Pos, v.KnownWhat[ob.Key])
+		}
+		for _, b := range v.Broken {
+			fmt.Printf("CHECK-BROKEN property=%s %s\n", id, b)
+			exit = 1
+		}
+		if len(v.Broken) > 0 && len(v.Violations) == 0 {
+			// a broken check is reported as a violation of the machinery, with a replay describing it
+			rp := writeReplay(vdir, id, []Obligation{{Rule: "machinery", Key: "machinery|" + id, Detail: strings.Join(v.Broken, "; ")}})
+			fmt.Printf("VIOLATION property=%s replay=%s\n", id, rp)
+		}
+		if len(v.Violations) > 0 {
+			for _, ob := range v.Violations {
+				fmt.Printf("  violated %s at %s: %s\n", ob.Key, ob.Pos, ob.Detail)
+				for _, wl := range ob.Witness {
+					fmt.Printf("      %s\n", wl)
+				}
+			}
+			rp := writeReplay(vdir, id, v.Violations)
+			fmt.Printf("VIOLATION property=%s replay=%s\n", id, rp)
+			exit = 1
+		}
+	}
+	os.Exit(exit)
+}
+
+func writeReplay(vdir, id string, obs []Obligation) string {
+	d := filepath.Join(vdir, "evidence", "replay")
+	os.MkdirAll(d, 0o755)
+	p := filepath.Join(d, id+".json")
+	b, _ := json.MarshalIndent(obs, "", " ")
+	os.WriteFile(p, b, 0o644)
+	return p
+}
